@@ -2,7 +2,13 @@ from dataclasses import dataclass
 
 from mypy.nodes import Block, CallExpr, ComparisonExpr, ExpressionStmt, IfStmt, MemberExpr
 
-from refurb.checks.common import get_mypy_type, is_equivalent, is_same_type, stringify
+from refurb.checks.common import (
+    get_mypy_type,
+    is_equivalent,
+    is_same_type,
+    stringify,
+    stringify_operand,
+)
 from refurb.error import Error
 
 
@@ -58,7 +64,7 @@ def check(node: IfStmt, errors: list[Error]) -> None:
             and is_same_type(get_mypy_type(expr), set)
         ):
             old = stringify(node)
-            new = f"{stringify(expr)}.discard({stringify(arg)})"
+            new = f"{stringify_operand(expr, '.')}.discard({stringify(arg)})"
 
             msg = f"Replace `{old}` with `{new}`"
 
